@@ -201,6 +201,29 @@ if MC.getattr_.__module__ != __name__:
     MC.getattr_ = getattr_
     M.getattr_ = getattr_  # pyvc.models re-exports the names of models_calls; the engine calls through it
 
+# record model name -> (Bool column, class when the column is True, class when it is False): the records of such a map
+# stand for objects of EITHER class (e.g. ChannelManager.channels[handle] holds ClassicChannel and LeCreditBasedChannel
+# objects); `isinstance(record, X)` / `type(record)` is answered from the column (a case split at the test)
+KIND_CLASSES: dict = {}
+
+_orig_pytype_of = MC.pytype_of
+
+
+def pytype_of(ex, v):
+    if isinstance(v, ElemRef):
+        mdl = ex.obj(v.mref).elem_model
+        spec = KIND_CLASSES.get(mdl.name) if mdl is not None else None
+        if spec is not None:
+            col, cls_true, cls_false = spec
+            if ex.spec_mode:
+                raise Unsupported('isinstance of a two-class record in a specification (read the kind column instead)')
+            return cls_true if ex.branch(ex.truth(M.elem_get(ex, v, col))) else cls_false
+    return _orig_pytype_of(ex, v)
+
+
+if MC.pytype_of.__module__ != __name__:
+    MC.pytype_of = pytype_of
+
 _orig_truth = E.Path.truth
 
 
